@@ -75,9 +75,9 @@ def check_same_pipeline(ctx):
             # the proto-subroutine: popped from the builder (compile) or the parameter (commit_protosubroutine)
             protos = {k for k, v in A.single_defs(fn).items() if isinstance(v, ast.Call) and A.call_name(v) == POP} | {p for p in A.param_names(fn) if "proto" in p}
             calls = []
-            for st in A.body_nodes(fn):
-                if isinstance(st, ast.Assign) and isinstance(st.value, ast.Call) and any(isinstance(a, ast.Name) and a.id in protos for a in list(st.value.args) + [k.value for k in st.value.keywords]):
-                    calls.append(A.norm(st.value.func))
+            for _t, v_, st in A.plain_assigns(fn):
+                if isinstance(v_, ast.Call) and any(isinstance(a, ast.Name) and a.id in protos for a in list(v_.args) + [k.value for k in v_.keywords]):
+                    calls.append(A.norm(v_.func))
             conv[f"{c.name}.{name}"] = calls
     ctx.anchor("C06.S", "methods converting a proto-subroutine", len(conv), 2)
     kinds = {tuple(v) for v in conv.values()}
@@ -284,32 +284,57 @@ def run(ctx):
     ok = init is not None and any(isinstance(n, ast.Call) and dotted(n.func) == "isinstance" and A.norm(n.args[1]) == "Template" for n in ast.walk(init))
     ctx.check("C06.I", "Subroutine.__init__:arguments-from-template-operands", ok, "Subroutine.__init__ no longer collects Template operands as arguments", sub.loc(init) if init else "", trivial=True)
 
-    # ---- C06.T
+    # ---- C06.T  (abstract execution, as C17.O: the way from_operands is written does not matter)
+    from .. import circuit as C
     n_t = 0
     seen = set()
+    tcls = repo.get_class("netqasm.lang.operand", "Template")
     for c in I.all_registered(repo):
         fo = I.shape_owner(repo, c, "from_operands")
         if fo is None or fo.qualname in seen:
             continue
         seen.add(fo.qualname)
         fn = fo.methods["from_operands"]
-        tvars = set()
-        for n in ast.walk(fn):
-            if isinstance(n, ast.Call) and dotted(n.func) == "isinstance" and len(n.args) == 2 and isinstance(n.args[0], ast.Name) and "Template" in A.norm(n.args[1]):
-                tvars.add(n.args[0].id)
-        for v in sorted(tvars):
-            n_t += 1
-            conv = False
-            # under the fact `isinstance(v, int)` the operand is wrapped as Immediate(v) (bound to v itself or to another local)
-            for n in A.body_nodes(fn):
-                if isinstance(n, ast.Assign) and isinstance(n.value, ast.Call) and A.call_name(n.value) == "Immediate":
-                    args_ = list(n.value.args) + [k_.value for k_ in n.value.keywords]
-                    if len(args_) == 1 and A.norm(args_[0]) == v and any(
-                            pol and isinstance(t, ast.Call) and dotted(t.func) == "isinstance" and A.norm(t.args[0]) == v and A.norm(t.args[1]) == "int" for t, pol in G.path_conditions(fn, n)):
-                        conv = True
-            ctx.check("C06.T", f"{fo.name}.from_operands:{v}:int-converted-where-template-admitted", conv,
-                      f"{fo.name}.from_operands admits a Template for `{v}` but does not convert a raw int there to an Immediate; instantiating the template would leave an int operand", fo.loc(fn),
-                      sample={"class": fo.name, "operand": v})
+        ops = I.operands_attrs(repo, c) or []
+        anns = {n: ann for n, ann, k in I.operand_fields(repo, c)}
+        reals = [repo.property_alias(c, a) or a for a in ops]
+        imm_pos = [i for i, r in enumerate(reals) if "Immediate" in I.ann_types(anns.get(r))]
+        if not imm_pos:
+            continue
+
+        def run_with(make):
+            vals = []
+            for i, r in enumerate(reals):
+                t = I.ann_types(anns.get(r))
+                if i in imm_pos:
+                    vals.append(make(i))
+                elif "Register" in t:
+                    vals.append(C.RegSym(f"operand{i}"))
+                else:
+                    k = repo.resolve_class(fo.module, t[0]) if t else None
+                    vals.append(C.Obj(k, {"operand": i}))
+            it = C.Interp(repo, ctx.ev, C.Scenario(), None)
+            try:
+                return vals, it.call_function(fo.module, fn, [vals], {}, self_obj=("class", fo))
+            except C.EvalRaise:
+                return vals, None
+
+        try:
+            for i in imm_pos:
+                # a template at position i alone (the others hold ints)
+                vals, out = run_with(lambda j, i=i: C.Obj(tcls, {"name": f"t{j}"}) if j == i else 1000003 + j)
+                if not (isinstance(out, C.Obj) and out.fields.get(reals[i]) is vals[i]):
+                    continue  # this position does not admit a template
+                n_t += 1
+                ctx.fn(fo.qualname + ".from_operands")
+                vals2, out2 = run_with(lambda j: 1000003 + j)
+                got = out2.fields.get(reals[i]) if isinstance(out2, C.Obj) else None
+                conv = isinstance(got, C.Imm) and got.value == vals2[i]
+                ctx.check("C06.T", f"{fo.name}.from_operands:{reals[i]}:int-converted-where-template-admitted", conv,
+                          f"{fo.name}.from_operands admits a Template for `{reals[i]}` but does not convert a raw int there to an Immediate; instantiating the template would leave an int operand", fo.loc(fn),
+                          sample={"class": fo.name, "operand": reals[i]})
+        except AnalysisError as ex_:
+            ctx.error("C06.T", f"{fo.name}.from_operands cannot be evaluated: {ex_}")
     ctx.anchor("C06.T", "template-admitting operand positions", n_t, 2)
 
 
